@@ -1241,6 +1241,8 @@ class Evaluator:
         return None
 
     def binop(self, op, a, b, ty):
+        if op in ("Rem", "Div") and getattr(self, "div_watch", None):
+            self.div_watch(op, a, b)
         if op in ("Eq", "Ne", "Lt", "Le", "Gt", "Ge"):
             if isinstance(a, Cond) or isinstance(b, Cond):
                 ca, cb = self.as_cond(a), self.as_cond(b)
